@@ -10,11 +10,11 @@ open GocoinV GocoinV.Script
 theorem shuffle_agree (T : TotalOracles) (c : Ctx) (leaf : Bytes) (annex : Option Bytes) (st : St) (s : ScriptSpec.State)
     (i : ScriptSpec.Instr) (idx pos : Nat) (hR : Rel c st s) (hs : ScriptSpec.isShuffle i.op = true) :
     Agree c (execOp c st i.op idx pos true) (ScriptSpec.execOpcode (envOf T c leaf annex) s i true pos) := by
-  obtain ⟨h1, h2, h3, h4, h5, h6, h7, h8⟩ := hR
+  obtain ⟨h1, h2, h3, h5, h6, h7, h8⟩ := hR
   obtain ⟨sstack, salt, scond, sop, scode, scsp, sw⟩ := s
   obtain ⟨stack, alt, exe, pbegin, opcnt, ed⟩ := st
-  simp only at h1 h2 h3 h4 h5 h6 h7 h8
-  subst h1 h2 h3 h4 h5
+  simp only at h1 h2 h3 h5 h6 h7 h8
+  subst h1 h2 h3 h5
   obtain ⟨iop, idata, iafter⟩ := i
   simp only [ScriptSpec.isShuffle, Bool.or_eq_true, beq_iff_eq] at hs
   rcases hs with ((((((((((((h|h)|h)|h)|h)|h)|h)|h)|h)|h)|h)|h)|h)|h <;> subst h <;>
@@ -22,36 +22,35 @@ theorem shuffle_agree (T : TotalOracles) (c : Ctx) (leaf : Bytes) (annex : Optio
     rcases stack with _ | ⟨a, _ | ⟨b, _ | ⟨d, _ | ⟨e, _ | ⟨f, _ | ⟨g, r⟩⟩⟩⟩⟩⟩ <;>
     simp [agree_ok, agree_fail, throw, throwThe, MonadExceptOf.throw, pure, Except.pure] <;>
     (try (split <;> simp [agree_ok])) <;>
-    exact ⟨rfl, rfl, rfl, rfl, rfl, h6, h7, h8⟩
+    exact ⟨rfl, rfl, rfl, rfl, h6, h7, h8⟩
 
 def isConstOp (op : Nat) : Bool := op == 0x4f || (0x51 ≤ op && op ≤ 0x60) || op == 0x61
 
 theorem const_agree (T : TotalOracles) (c : Ctx) (leaf : Bytes) (annex : Option Bytes) (st : St) (s : ScriptSpec.State)
     (i : ScriptSpec.Instr) (idx pos : Nat) (hR : Rel c st s) (hs : isConstOp i.op = true) :
     Agree c (execOp c st i.op idx pos true) (ScriptSpec.execOpcode (envOf T c leaf annex) s i true pos) := by
-  obtain ⟨h1, h2, h3, h4, h5, h6, h7, h8⟩ := hR
+  obtain ⟨h1, h2, h3, h5, h6, h7, h8⟩ := hR
   obtain ⟨sstack, salt, scond, sop, scode, scsp, sw⟩ := s
   obtain ⟨stack, alt, exe, pbegin, opcnt, ed⟩ := st
-  simp only at h1 h2 h3 h4 h5 h6 h7 h8
-  subst h1 h2 h3 h4 h5
+  simp only at h1 h2 h3 h5 h6 h7 h8
+  subst h1 h2 h3 h5
   obtain ⟨iop, idata, iafter⟩ := i
   simp only [isConstOp, Bool.or_eq_true, beq_iff_eq, Bool.and_eq_true, decide_eq_true_eq] at hs
-  have hb : ((iop : Int) - 0x50).natAbs < 256 ^ 9 := by omega
   rcases hs with (h | ⟨ha, hb'⟩) | h
   · subst h
     simp [execOp, ScriptSpec.execOpcode, agree_ok, pure, Except.pure, St.push, ScriptSpec.pushNum, ScriptSpec.push]
-    refine ⟨?_, rfl, rfl, rfl, rfl, h6, h7, h8⟩
+    refine ⟨?_, rfl, rfl, rfl, h6, h7, h8⟩
     simp; decide
   · have e1 : (iop == 0x4f) = false := by simp; omega
     have e2 : (decide (iop ≥ 0x51) && decide (iop ≤ 0x60)) = true := by simp; omega
     have e3 : (iop == 0x4f || (decide (0x51 ≤ iop) && decide (iop ≤ 0x60))) = true := by simp; omega
     simp only [execOp, ScriptSpec.execOpcode, e1, e2, e3, Bool.false_eq_true, ↓reduceIte, agree_ok, pure, Except.pure, St.push,
       ScriptSpec.pushNum, ScriptSpec.push, Bool.false_or, Bool.or_true]
-    refine ⟨?_, rfl, rfl, rfl, rfl, h6, h7, h8⟩
-    simp only [intBytes_eq_encode _ hb]
+    refine ⟨?_, rfl, rfl, rfl, h6, h7, h8⟩
+    simp only [intBytes_eq_encode]
   · subst h
     simp [execOp, ScriptSpec.execOpcode, agree_ok, pure, Except.pure]
-    exact ⟨rfl, rfl, rfl, rfl, rfl, h6, h7, h8⟩
+    exact ⟨rfl, rfl, rfl, rfl, h6, h7, h8⟩
 
 def isMiscOp (op : Nat) : Bool :=
   op == 0x69 || op == 0x6a || op == 0x6b || op == 0x6c || op == 0x87 || op == 0x88 ||
@@ -60,11 +59,11 @@ def isMiscOp (op : Nat) : Bool :=
 theorem misc_agree (T : TotalOracles) (c : Ctx) (hO : c.O = T.toOracles) (leaf : Bytes) (annex : Option Bytes) (st : St) (s : ScriptSpec.State)
     (i : ScriptSpec.Instr) (idx pos : Nat) (hR : Rel c st s) (hs : isMiscOp i.op = true) :
     Agree c (execOp c st i.op idx pos true) (ScriptSpec.execOpcode (envOf T c leaf annex) s i true pos) := by
-  obtain ⟨h1, h2, h3, h4, h5, h6, h7, h8⟩ := hR
+  obtain ⟨h1, h2, h3, h5, h6, h7, h8⟩ := hR
   obtain ⟨sstack, salt, scond, sop, scode, scsp, sw⟩ := s
   obtain ⟨stack, alt, exe, pbegin, opcnt, ed⟩ := st
-  simp only at h1 h2 h3 h4 h5 h6 h7 h8
-  subst h1 h2 h3 h4 h5
+  simp only at h1 h2 h3 h5 h6 h7 h8
+  subst h1 h2 h3 h5
   obtain ⟨iop, idata, iafter⟩ := i
   simp only [isMiscOp, Bool.or_eq_true, beq_iff_eq] at hs
   rcases hs with (((((((((h|h)|h)|h)|h)|h)|h)|h)|h)|h)|h <;> subst h <;>
@@ -75,7 +74,7 @@ theorem misc_agree (T : TotalOracles) (c : Ctx) (hO : c.O = T.toOracles) (leaf :
       ScriptSpec.vchTrue, ScriptSpec.vchFalse, TotalOracles.toOracles] <;>
     (try (cases hcb : ScriptSpec.castToBool a <;> simp [hcb, agree_ok, agree_fail])) <;>
     (try (by_cases hab : a = b <;> simp [hab, agree_ok, agree_fail])) <;>
-    (try exact ⟨rfl, rfl, rfl, rfl, rfl, h6, h7, h8⟩)
+    (try exact ⟨rfl, rfl, rfl, rfl, h6, h7, h8⟩)
 
 def isNopOp (op : Nat) : Bool :=
   op == 0xb0 || op == 0xb3 || op == 0xb4 || op == 0xb5 || op == 0xb6 || op == 0xb7 || op == 0xb8 || op == 0xb9
@@ -83,140 +82,17 @@ def isNopOp (op : Nat) : Bool :=
 theorem nop_agree (T : TotalOracles) (c : Ctx) (leaf : Bytes) (annex : Option Bytes) (st : St) (s : ScriptSpec.State)
     (i : ScriptSpec.Instr) (idx pos : Nat) (hR : Rel c st s) (hs : isNopOp i.op = true) :
     Agree c (execOp c st i.op idx pos true) (ScriptSpec.execOpcode (envOf T c leaf annex) s i true pos) := by
-  obtain ⟨h1, h2, h3, h4, h5, h6, h7, h8⟩ := hR
+  obtain ⟨h1, h2, h3, h5, h6, h7, h8⟩ := hR
   obtain ⟨sstack, salt, scond, sop, scode, scsp, sw⟩ := s
   obtain ⟨stack, alt, exe, pbegin, opcnt, ed⟩ := st
-  simp only at h1 h2 h3 h4 h5 h6 h7 h8
-  subst h1 h2 h3 h4 h5
+  simp only at h1 h2 h3 h5 h6 h7 h8
+  subst h1 h2 h3 h5
   obtain ⟨iop, idata, iafter⟩ := i
   simp only [isNopOp, Bool.or_eq_true, beq_iff_eq] at hs
   rcases hs with ((((((h|h)|h)|h)|h)|h)|h)|h <;> subst h <;>
     simp only [execOp, ScriptSpec.execOpcode, isBinArith, envOf_f, ← flag_nops] <;>
     cases hf : has c.flags VER_BLOCK_OPS <;>
     simp [hf, agree_ok, agree_fail, throw, throwThe, MonadExceptOf.throw, pure, Except.pure] <;>
-    exact ⟨rfl, rfl, rfl, rfl, rfl, h6, h7, h8⟩
-
-/-- the opcodes whose step simulation is proved (every push opcode 0x00–0x4e is handled by the frame) -/
-def provedOp (op : Nat) : Bool :=
-  op ≤ 0x4e || isConstOp op || ScriptSpec.isShuffle op || isMiscOp op || isNopOp op
-
-/-- `execOp` and `execOpcode` agree on every proved non-push opcode -/
-theorem execOp_agree (T : TotalOracles) (c : Ctx) (hO : c.O = T.toOracles) (leaf : Bytes) (annex : Option Bytes)
-    (st : St) (s : ScriptSpec.State) (i : ScriptSpec.Instr) (idx pos : Nat) (hR : Rel c st s)
-    (hp : provedOp i.op = true) (hgt : i.op > 0x4e) :
-    Agree c (execOp c st i.op idx pos true) (ScriptSpec.execOpcode (envOf T c leaf annex) s i true pos) := by
-  unfold provedOp at hp
-  simp only [Bool.or_eq_true, decide_eq_true_eq] at hp
-  rcases hp with (((h | h) | h) | h) | h
-  · omega
-  · exact const_agree T c leaf annex st s i idx pos hR h
-  · exact shuffle_agree T c leaf annex st s i idx pos hR h
-  · exact misc_agree T c hO leaf annex st s i idx pos hR h
-  · exact nop_agree T c leaf annex st s i idx pos hR h
-
-/-- one loop iteration agrees for every proved opcode -/
-theorem stepAt_agree (T : TotalOracles) (c : Ctx) (hO : c.O = T.toOracles) (leaf : Bytes) (annex : Option Bytes)
-    (st : St) (s : ScriptSpec.State) (op : Op) (i : ScriptSpec.Instr) (idx pos : Nat)
-    (hop : i.op = op.opcode) (hdata : i.data = op.push.getD []) (hR : Rel c st s) (hp : provedOp i.op = true) :
-    Agree c (stepAt c st op idx pos) (ScriptSpec.execInstr (envOf T c leaf annex) s i pos) := by
-  apply stepAt_frame T c hO leaf annex st s op i idx pos hop hdata hR
-  intro hgt st1 s1 hR1
-  rw [← hop]
-  exact execOp_agree T c hO leaf annex st1 s1 i idx pos hR1 hp (by omega)
-
-/-- the spec's loop with its trailing decode-error check -/
-def specLoop (e : ScriptSpec.Env) (p : List ScriptSpec.Instr × Bool) (pos : Nat) (s : ScriptSpec.State) :
-    ScriptSpec.E ScriptSpec.State := do
-  let s' ← ScriptSpec.execInstrs e p.1 pos s
-  if p.2 then throw ScriptSpec.ScriptError.BAD_OPCODE
-  pure s'
-
-/-- Whole-loop simulation: decoding while executing (model) against parse-then-execute (spec), for scripts made
-    of proved opcodes only. -/
-theorem evalLoop_agree (T : TotalOracles) (c : Ctx) (hO : c.O = T.toOracles) (leaf : Bytes) (annex : Option Bytes) :
-    ∀ (f : Nat) (rest : Bytes) (pos : Nat) (st : St) (s : ScriptSpec.State), Rel c st s →
-      (∀ i ∈ (ScriptSpec.parseAux f rest).1, provedOp i.op = true) →
-      Agree c (evalLoop c f rest pos st) (specLoop (envOf T c leaf annex) (ScriptSpec.parseAux f rest) pos s) := by
-  intro f
-  induction f with
-  | zero =>
-    intro rest pos st s hR _
-    simp only [evalLoop, ScriptSpec.parseAux, specLoop, ScriptSpec.execInstrs]
-    by_cases he : rest.isEmpty
-    · simp [he, agree_ok, pure, Except.pure, bind, Except.bind]; exact hR
-    · simp [he, agree_fail, pure, Except.pure, bind, Except.bind, throw, throwThe, MonadExceptOf.throw]
-  | succ f ih =>
-    intro rest pos st s hR hall
-    simp only [evalLoop, ScriptSpec.parseAux, specLoop]
-    by_cases he : rest.isEmpty
-    · simp [he, ScriptSpec.execInstrs, agree_ok, pure, Except.pure, bind, Except.bind]; exact hR
-    · simp only [he, Bool.false_eq_true, ↓reduceIte]
-      cases hg : getOpcode rest with
-      | none =>
-        simp [parseOne_none_of_getOpcode hg, ScriptSpec.execInstrs, agree_fail, pure, Except.pure, bind, Except.bind, throw, throwThe,
-          MonadExceptOf.throw]
-      | some op =>
-        obtain ⟨i, hp, h1, h2, h3, _⟩ := parseOne_of_getOpcode hg
-        simp only [hp, ScriptSpec.execInstrs]
-        have hall' : ∀ j ∈ (ScriptSpec.parseAux (f + 1) rest).1, provedOp j.op = true := hall
-        simp only [ScriptSpec.parseAux, he, Bool.false_eq_true, ↓reduceIte, hp] at hall'
-        have hpi : provedOp i.op = true := hall' i (by simp)
-        have hrest : ∀ j ∈ (ScriptSpec.parseAux f i.after).1, provedOp j.op = true := by
-          intro j hj; exact hall' j (by simp [hj])
-        have hstep := stepAt_agree T c hO leaf annex st s op i (c.p.length - rest.length + op.n) pos h1 h2 hR hpi
-        generalize stepAt c st op (c.p.length - rest.length + op.n) pos = X at hstep ⊢
-        generalize ScriptSpec.execInstr (envOf T c leaf annex) s i pos = Y at hstep ⊢
-        cases hstep with
-        | fail => simp [bind, Except.bind, Res.bind]; exact Agree.fail
-        | panic => simp [bind, Except.bind, Res.bind]; exact Agree.panic
-        | ok hR' =>
-          rename_i a b
-          have := ih (rest.drop op.n) (pos + 1) a b hR' (by rw [← h3]; exact hrest)
-          simp only [specLoop, ← h3] at this
-          simpa [bind, Except.bind, Res.bind, h3] using this
-
-/-- `evalScript` (model, with its size check and recover) against `EvalScript` (spec) on scripts of proved opcodes:
-    both fail, or both succeed with the same final stack -/
-theorem evalScript_agree (T : TotalOracles) (tx : TxCtx) (flags : Nat) (p : Bytes) (stack : Stack) (sv : SigVersion)
-    (ed : ExecData) (hall : ∀ i ∈ (ScriptSpec.parse p).1, provedOp i.op = true) :
-    match evalScript T.toOracles tx flags p stack sv ed,
-          ScriptSpec.evalScript (envOf T ⟨T.toOracles, tx, flags, sv, p⟩ ed.tapleafHash ed.annexHash) p stack ed.weightLeft with
-    | .ok s1, .ok s2 => s1 = s2
-    | .fail, .error _ => True
-    | _, _ => False := by
-  unfold evalScript ScriptSpec.evalScript
-  simp only [envOf_sv, show ScriptSpec.MAX_SCRIPT_SIZE = MAX_SCRIPT_SIZE from rfl]
-  by_cases hsz : ((sv == SigVersion.base || sv == SigVersion.witnessV0) && decide (p.length > MAX_SCRIPT_SIZE)) = true
-  · simp [hsz, bind, Except.bind, throw, throwThe, MonadExceptOf.throw]
-  · have hsz' : ((sv == SigVersion.base || sv == SigVersion.witnessV0) && decide (p.length > MAX_SCRIPT_SIZE)) = false := by
-      cases h : ((sv == SigVersion.base || sv == SigVersion.witnessV0) && decide (p.length > MAX_SCRIPT_SIZE)) <;> simp_all
-    simp only [hsz', Bool.false_eq_true, ↓reduceIte]
-    have hR0 : Rel ⟨T.toOracles, tx, flags, sv, p⟩ { stack := stack, ed := { ed with codesepPos := 0xFFFFFFFF } }
-        { stack := stack, code := p, weightLeft := ed.weightLeft } :=
-      ⟨rfl, rfl, rfl, rfl, rfl, by simp, rfl, rfl⟩
-    have hloop := evalLoop_agree T ⟨T.toOracles, tx, flags, sv, p⟩ rfl ed.tapleafHash ed.annexHash p.length p 0 _ _ hR0
-      (by unfold ScriptSpec.parse at hall; exact hall)
-    unfold specLoop at hloop
-    unfold ScriptSpec.parse
-    generalize evalLoop ⟨T.toOracles, tx, flags, sv, p⟩ p.length p 0 _ = X at hloop ⊢
-    generalize ScriptSpec.parseAux p.length p = pr at hloop ⊢
-    obtain ⟨instrs, bad⟩ := pr
-    simp only at hloop ⊢
-    generalize ScriptSpec.execInstrs _ instrs 0 _ = Y at hloop ⊢
-    cases Y with
-    | error e =>
-      simp only [bind, Except.bind] at hloop ⊢
-      cases hloop <;> simp [recoverPanic, Res.bind]
-    | ok b =>
-      cases bad with
-      | true =>
-        simp only [bind, Except.bind, ↓reduceIte, throw, throwThe, MonadExceptOf.throw] at hloop ⊢
-        cases hloop <;> simp [recoverPanic, Res.bind]
-      | false =>
-        simp only [bind, Except.bind, Bool.false_eq_true, ↓reduceIte, pure, Except.pure] at hloop ⊢
-        cases hloop with
-        | ok hR =>
-          rename_i a
-          simp [recoverPanic, Res.bind, hR.exe, hR.cond, ScriptSpec.Cond.empty, hR.stack]
+    exact ⟨rfl, rfl, rfl, rfl, h6, h7, h8⟩
 
 end GocoinV.Proofs.C01
